@@ -1234,3 +1234,103 @@ Proof.
 Qed.
 
 End DelegHistories.
+
+(** * The property *)
+Section Main.
+Variable valid_id : bytes -> bool.
+Notation stp := (step valid_id).
+Notation run := (run valid_id).
+
+(** T1: verifyToken after any history, in terms of the stored sets. *)
+Lemma verify_token_run h e c caller fn k :
+  verify_token (run h) e c caller fn k = RTrue <->
+  e_sig e caller k = SigOk /\
+  exists r, fn_assigned (run h) c r fn = true /\
+    ((holds_direct (run h) c caller r = true /\ e_now e <= AUTH_FUTURE) \/
+     (exists d, deleg_of (run h) c caller r = Some d /\ e_now e <= d_expire d)).
+Proof. apply verify_token_state. apply run_inv. Qed.
+
+Lemma fn_given_iff h c r f : fn_assigned (run h) c r f = true <-> fn_given valid_id h c r f.
+Proof. apply fn_events. Qed.
+Lemma role_assigned_iff h c id r : holds_direct (run h) c id r = true <-> role_assigned valid_id h c id r.
+Proof. apply direct_events. Qed.
+
+(** Main theorem, event level. *)
+Lemma verify_token_events h e c caller fn k : times_u32 h ->
+  (verify_token (run h) e c caller fn k = RTrue <->
+   e_sig e caller k = SigOk /\ may_call valid_id h (e_now e) c caller fn).
+Proof.
+  intro TU. rewrite verify_token_run. unfold may_call. split.
+  - intros [S (r & F & HR)]. split; [exact S|]. exists r. split; [apply fn_given_iff; exact F|].
+    destruct HR as [[D L]|(d & D & L)].
+    + left. split; [apply role_assigned_iff; exact D|exact L].
+    + right. pose proof (deleg_of_shape _ _ _ _ _ D) as SH. rewrite SH in D.
+      exists (d_root d), (d_expire d), (d_level d). split; [apply deleg_events; assumption|exact L].
+  - intros [S (r & F & HR)]. split; [exact S|]. exists r. split; [apply fn_given_iff; exact F|].
+    destruct HR as [[D L]|(from & exp & lvl & D & L)].
+    + left. split; [apply role_assigned_iff; exact D|exact L].
+    + right. apply deleg_events in D; [|exact TU]. eexists. split; [exact D|exact L].
+Qed.
+
+(** The property text's reading ("the admin assigned the role") is implied by every grant ... *)
+Lemma role_assigned_named h c id r : role_assigned valid_id h c id r -> role_named valid_id h c id r.
+Proof. intros (h1 & e & h2 & H & N & _). exists h1, e, h2. auto. Qed.
+
+Lemma may_call_text_of h now c id f : may_call valid_id h now c id f -> may_call_text valid_id h now c id f.
+Proof.
+  intros (r & F & [[D L]|X]); exists r; (split; [exact F|]); [left; split; [apply role_assigned_named; exact D|exact L]|right; exact X].
+Qed.
+
+Lemma verify_token_sound_text h e c caller fn k : times_u32 h ->
+  verify_token (run h) e c caller fn k = RTrue ->
+  e_sig e caller k = SigOk /\ may_call_text valid_id h (e_now e) c caller fn.
+Proof.
+  intros TU H. apply verify_token_events in H; [|exact TU]. destruct H as [S M]. split; [exact S|apply may_call_text_of; exact M].
+Qed.
+
+(** ... and is equivalent on histories in which no accepted assignment was silently skipped. *)
+Lemma verify_token_text_partial h e c caller fn k : times_u32 h -> no_skipped_assignment valid_id h ->
+  (verify_token (run h) e c caller fn k = RTrue <->
+   e_sig e caller k = SigOk /\ may_call_text valid_id h (e_now e) c caller fn).
+Proof.
+  intros TU NS. rewrite (verify_token_events h e c caller fn k TU). split.
+  - intros [S M]. split; [exact S|apply may_call_text_of; exact M].
+  - intros [S (r & F & [[(h1 & ev & h2 & H & N) L]|X])]; (split; [exact S|]); exists r; (split; [exact F|]); [left|right; exact X].
+    split; [|exact L]. exists h1, ev, h2. split; [exact H|]. split; [exact N|]. apply (NS h1 ev h2 c caller r H N).
+Qed.
+
+(** Who could delegate: the delegator of a delegation in force was assigned the role by the admin
+    before delegating. *)
+Lemma delegator_was_assigned h c id r from exp lvl : deleg_in_force valid_id h c id r from exp lvl ->
+  exists h1 e h2, h = h1 ++ e :: h2 /\ role_assigned valid_id h1 c from r /\
+                  exp < AUTH_FUTURE /\ 0 < lvl /\ lvl < ADMIN_TOKEN_LEVEL.
+Proof.
+  intros (h1 & e & h2 & H & D & _). exists h1, e, h2. split; [exact H|].
+  destruct D as (p & k & _ & _ & _ & _ & _ & _ & HD & _ & _ & L1 & L2 & _ & X).
+  split; [apply role_assigned_iff; exact HD|]. rewrite admin_level_can_delegate. auto.
+Qed.
+
+(** Levels limit re-delegation: who holds the role only through a delegation cannot delegate it. *)
+Lemma delegate_needs_admin_assignment s e c from to r p l k : Inv s -> ev_now e < 4294967296 ->
+  ev_op e = ODelegate c from to r p l k -> holds_direct s c from r = false -> fst (stp s e) <> RTrue.
+Proof.
+  intros I Hn E H A. apply (proj1 (delegate_accept valid_id s e c from to r p l k I Hn E)) in A.
+  destruct A as (p' & k' & _ & _ & _ & _ & _ & _ & HD & _). congruence.
+Qed.
+
+(** The boundary: at now = expireTime verifyToken still grants, getAuthToken already says no. *)
+Lemma boundary_now_equals_expire h e c id r from exp lvl fn k : times_u32 h ->
+  deleg_in_force valid_id h c id r from exp lvl -> fn_given valid_id h c r fn ->
+  e_sig e id k = SigOk -> e_now e = exp ->
+  verify_token (run h) e c id fn k = RTrue /\
+  (holds_direct (run h) c id r = false -> get_auth_token (run h) (e_now e) c id r = None).
+Proof.
+  intros TU D F S N. split.
+  - apply verify_token_events; [exact TU|]. split; [exact S|]. exists r. split; [exact F|]. right.
+    exists from, exp, lvl. split; [exact D|lia].
+  - intro HD. apply gat_none; [apply run_inv|]. split; [exact HD|].
+    apply deleg_events in D; [|exact TU]. intros (d & D' & L). rewrite D in D'. inversion D'; subst d.
+    unfold d_expire in L; simpl in L. lia.
+Qed.
+
+End Main.
